@@ -4,18 +4,25 @@
 (*   <<1, id>> LocalOpen   <<2, id>> PeerOpenBegin   <<3, id>> PeerOpenCommit         *)
 (*   <<4, id>> PeerOpenReject   <<5, id>> Close                                       *)
 (*   <<6, id>> stray OPEN_FAILURE   <<7, id>> stray OPEN_CONFIRMATION   <<8, id>> duplicate CLOSE *)
-(* StrayFirst = TRUE directs the generation: the history starts with a stray          *)
+(*   <<9, id>> LocalOpenSend (open_channel waits for the answer)   <<10, id>> OpenAccepted *)
+(*   <<11, id>> OpenRefused   <<12, id>> OpenTimeout                                    *)
+(* Directed = "timeout": local opens time out only while a peer open sits between       *)
+(* allocation and registration, and nothing is closed or refused.                       *)
+(* Directed = "stray" directs the generation: the history starts with a stray          *)
 (* OPEN_FAILURE for a channel that is open, which then stays open - the counter         *)
 (* travels towards that id (wrap-around).                                              *)
 (* `adv` is how far the counter has moved: histories stop before it has gone once    *)
 (* round the model's (small) id space, so that model ids map one-to-one, in order,   *)
 (* onto real ids around the real wrap point 2^24 - 1 -> 0.                            *)
 EXTENDS ChannelIds
-CONSTANTS MaxSteps, MaxInit, StrayFirst
+CONSTANTS MaxSteps, MaxInit,
+          Directed    \* "none" | "stray" | "timeout": see above
 VARIABLES hist, adv
+StrayFirst == Directed = "stray"
+TimeoutRun == Directed = "timeout"
 SetToSeq(S) == CHOOSE f \in [1..Cardinality(S) -> S] : \A i, j \in 1..Cardinality(S) : i < j => f[i] < f[j]
 Dist(a, b) == (b - a + N) % N             \* steps from a to b going up cyclically
-GInit == /\ counter \in Ids /\ pend = <<>> /\ inwin = 0
+GInit == /\ counter \in Ids /\ pend = <<>> /\ inwin = 0 /\ await = {}
          /\ \E S \in SUBSET Ids : /\ Cardinality(S) <= MaxInit
                                   /\ (StrayFirst => S # {})
                                   /\ map = S /\ open = [i \in S |-> 1]
@@ -23,25 +30,36 @@ GInit == /\ counter \in Ids /\ pend = <<>> /\ inwin = 0
          /\ adv = 0
 Step(tag, id) == hist' = Append(hist, <<tag, id>>)
 First == StrayFirst /\ Len(hist) = 1
+InWindow == "T" \in DOMAIN pend
+\* the timeout-directed run: a peer open begins only while some local open waits; inside its window the waiting
+\* opens time out first, then at least two more local opens follow before the peer's channel is registered
+Steer == TimeoutRun /\ InWindow => await = {}
 \* out-of-turn messages are sparse (two per history) and name ids that mean something: an open channel, a
 \* half-registered peer open, or the id the counter points at (no channel)
 StrayCount == Cardinality({i \in 2..Len(hist) : hist[i][1] \in {6, 7, 8}})
-StrayIds == DOMAIN open \cup Range(pend) \cup {counter}
+StrayIds == (DOMAIN open \cup Range(pend) \cup {counter}) \ await
 GNext ==
   /\ Len(hist) <= MaxSteps
-  /\ \/ ~First /\ LocalOpen /\ Step(1, NextFree(counter, map)) /\ adv' = adv + Dist(counter, counter')
-     \/ ~First /\ PeerOpenBegin /\ Step(2, NextFree(counter, map)) /\ adv' = adv + Dist(counter, counter')
-     \/ PeerOpenCommit /\ Step(3, pend["T"]) /\ adv' = adv
-     \/ PeerOpenReject /\ Step(4, pend["T"]) /\ adv' = adv
-     \/ ~First /\ \E id \in DOMAIN open : /\ (StrayFirst => id # hist[2][2])     \* the named channel stays open
-                                            /\ Close(id) /\ Step(5, id) /\ adv' = adv
-     \/ \E id \in StrayIds : /\ (StrayFirst => First /\ id \in DOMAIN open) /\ StrayCount < 2
-                        /\ StrayOpenFailure(id) /\ Step(6, id) /\ adv' = adv
-     \/ ~StrayFirst /\ StrayCount < 2 /\ \E id \in StrayIds : StrayOpenSuccess(id) /\ Step(7, id) /\ adv' = adv
-     \/ ~StrayFirst /\ StrayCount < 2 /\ \E id \in StrayIds : DuplicateClose(id) /\ Step(8, id) /\ adv' = adv
+  /\ \/ ~First /\ Steer /\ LocalOpen /\ Step(1, NextFree(counter, map)) /\ adv' = adv + Dist(counter, counter')
+     \/ ~First /\ (TimeoutRun => await # {}) /\ PeerOpenBegin /\ Step(2, NextFree(counter, map)) /\ adv' = adv + Dist(counter, counter')
+     \/ (TimeoutRun => inwin >= 2) /\ PeerOpenCommit /\ Step(3, pend["T"]) /\ adv' = adv
+     \/ ~TimeoutRun /\ PeerOpenReject /\ Step(4, pend["T"]) /\ adv' = adv
+     \/ ~First /\ ~TimeoutRun
+            /\ \E id \in DOMAIN open : /\ (StrayFirst => id # hist[2][2])     \* the named channel stays open
+                                      /\ Close(id) /\ Step(5, id) /\ adv' = adv
+     \/ ~TimeoutRun /\ \E id \in StrayIds : /\ (StrayFirst => First /\ id \in DOMAIN open) /\ StrayCount < 2
+                                           /\ StrayOpenFailure(id) /\ Step(6, id) /\ adv' = adv
+     \/ Directed = "none" /\ StrayCount < 2 /\ \E id \in StrayIds : StrayOpenSuccess(id) /\ Step(7, id) /\ adv' = adv
+     \/ Directed = "none" /\ StrayCount < 2 /\ \E id \in StrayIds : DuplicateClose(id) /\ Step(8, id) /\ adv' = adv
+     \* local opens that wait for their answer (not in the stray-directed run)
+     \/ ~StrayFirst /\ Steer /\ LocalOpenSend /\ Step(9, NextFree(counter, map)) /\ adv' = adv + Dist(counter, counter')
+     \/ \E id \in await : (TimeoutRun => ~InWindow) /\ OpenAccepted(id) /\ Step(10, id) /\ adv' = adv
+     \/ ~TimeoutRun /\ \E id \in await : OpenRefused(id) /\ Step(11, id) /\ adv' = adv
+     \/ \E id \in await : (TimeoutRun => InWindow) /\ OpenTimeout(id) /\ Step(12, id) /\ adv' = adv
   /\ adv' < N
 GSpec == GInit /\ [][GNext]_<<vars, hist, adv>>
-\* complete: the step budget is used up, or (directed run) the counter has been all the way round
-Emit == ("T" \notin DOMAIN pend /\ (Len(hist) = MaxSteps + 1 \/ (StrayFirst /\ adv >= N - 2)))
+\* complete: the step budget is used up; the directed runs also print shorter histories (the check drops
+\* histories that are a prefix of another one)
+Emit == ("T" \notin DOMAIN pend /\ (Len(hist) = MaxSteps + 1 \/ (StrayFirst /\ adv >= N - 2) \/ (TimeoutRun /\ Len(hist) >= 7)))
         => PrintT(<<"BEH", hist>>)
 =============================================================================
